@@ -5,6 +5,7 @@ package main
 import (
 	"math"
 	"time"
+	_ "time/tzdata" // daylight-saving locations without depending on the host's zoneinfo
 
 	"github.com/kishyassin/goframe/dataframe"
 )
@@ -18,6 +19,13 @@ func genRsm(r *Rng, tier string) *Enc {
 	case 1:
 		loc = time.FixedZone("M0800", -8*3600)
 	}
+	// a location WITH daylight-saving transitions (Y, M, D only: the start of a year, month or day is unambiguous)
+	dst := false
+	if r.Chance(6) {
+		if ny, err := time.LoadLocation(Pick(r, []string{"America/New_York", "Europe/Berlin", "Australia/Sydney"})); err == nil {
+			loc, dst = ny, true
+		}
+	}
 	n := r.SmallN()
 	if r.Chance(50) {
 		n = r.Range(4, 16)
@@ -28,6 +36,14 @@ func genRsm(r *Rng, tier string) *Enc {
 		time.Date(2000, 2, 29, 12, 0, 0, 0, loc), time.Date(1900, 3, 1, 0, 0, 1, 0, loc),
 		time.Date(2100, 12, 31, 23, 0, 0, 0, loc), time.Date(1969, 12, 31, 23, 59, 59, 0, loc),
 		time.Date(2021, 6, 15, 10, 30, 30, 500, loc),
+	}
+	if dst {
+		// shortly after midnight after a clock change, and around the changes themselves
+		anchors = []time.Time{
+			time.Date(2024, 3, 20, 0, 30, 0, 0, loc), time.Date(2024, 11, 20, 0, 30, 0, 0, loc), time.Date(2024, 3, 10, 12, 0, 0, 0, loc),
+			time.Date(2024, 11, 3, 12, 0, 0, 0, loc), time.Date(2024, 4, 7, 0, 15, 0, 0, loc), time.Date(2024, 10, 27, 0, 45, 0, 0, loc),
+			time.Date(2024, 12, 31, 23, 30, 0, 0, loc), time.Date(2024, 7, 1, 0, 5, 0, 0, loc),
+		}
 	}
 	base := Pick(r, anchors)
 	ts := make([]any, n)
@@ -43,7 +59,7 @@ func genRsm(r *Rng, tier string) *Enc {
 	// one frame mixing two locations: equal wall clocks in different zones are different buckets. Only UTC / +05:30
 	// with Y, M, D or H, where no two distinct bucket starts are the same instant (the order of such a pair is not
 	// determined by the property)
-	mixed := r.Chance(8)
+	mixed := r.Chance(8) && !dst
 	if mixed {
 		for i := range ts {
 			if t, ok := ts[i].(time.Time); ok {
@@ -93,6 +109,9 @@ func genRsm(r *Rng, tier string) *Enc {
 		freq = Pick(r, []string{"Q", "", "W", "d", "0T", "0D", "00H", "15T", "1D", "-1T", "2", "0"})
 	}
 	agg := r.Intn(5)
+	if dst {
+		mixed = false
+	}
 	if mixed && !r.Chance(6) {
 		freq = Pick(r, []string{"Y", "M", "D", "H"})
 	} else if mixed {
@@ -101,6 +120,9 @@ func genRsm(r *Rng, tier string) *Enc {
 	if long {
 		freq = Pick(r, []string{"M", "D", "Y"})
 		agg = Pick(r, []int{0, 4, 0, 1})
+	}
+	if dst {
+		freq = Pick(r, []string{"M", "D", "Y", "M"})
 	}
 	e.Tok("F")
 	e.Frame(df)
@@ -149,5 +171,32 @@ func genRsm(r *Rng, tier string) *Enc {
 	e.Int(ndiff)
 	e.Tok("AFTER")
 	e.Frame(df)
+	if dst {
+		// the standard library's own answer to "start of the year / month / day in the timestamp's location"
+		type pair struct{ a, b time.Time }
+		var tbl []pair
+		for _, v := range ts {
+			t, ok := v.(time.Time)
+			if !ok {
+				continue
+			}
+			var b time.Time
+			switch freq {
+			case "Y":
+				b = time.Date(t.Year(), 1, 1, 0, 0, 0, 0, t.Location())
+			case "M":
+				b = time.Date(t.Year(), t.Month(), 1, 0, 0, 0, 0, t.Location())
+			default:
+				b = time.Date(t.Year(), t.Month(), t.Day(), 0, 0, 0, 0, t.Location())
+			}
+			tbl = append(tbl, pair{t, b})
+		}
+		e.Tok("TR")
+		e.Int(len(tbl))
+		for _, p := range tbl {
+			e.Cell(p.a)
+			e.Cell(p.b)
+		}
+	}
 	return e
 }
